@@ -69,7 +69,7 @@ func (g *gen) randValueType() Ty { return valueTypes[g.pick(len(valueTypes))] }
 
 // stmt emits one statement (possibly compound). tail: may this statement end the function with returns.
 func (g *gen) stmt(s *scope, fs *fstate, ind int, depth int) {
-	switch g.pick(39) {
+	switch g.pick(49) {
 	case 0, 1: // x := e
 		t := g.randValueType()
 		e := g.expr(s, t, 2)
@@ -598,6 +598,120 @@ func (g *gen) stmt(s *scope, fs *fstate, ind int, depth int) {
 		g.declare(s, Var{Name: sv, T: Str, Assignable: true})
 		g.declare(s, Var{Name: a, T: U64})
 		g.declare(s, Var{Name: b, T: Str})
+	case 39: // a function that returns a closure
+		f, n := g.fresh("ad"), g.fresh("v")
+		g.key("closure.returned")
+		g.line(ind, "%s := mkAdder(%s)", f, g.expr(s, U64, 1))
+		g.line(ind, "%s := %s(%s) + %s(%s)", n, f, g.expr(s, U64, 1), f, g.expr(s, U64, 1))
+		g.declare(s, Var{Name: n, T: U64})
+	case 40: // method value bound to a pointer, called after the struct changed
+		c, f, n := g.fresh("cl"), g.fresh("mv"), g.fresh("v")
+		g.key("method.value")
+		g.line(ind, "%s := &Cell{v: %s}", c, g.expr(s, U64, 1))
+		g.line(ind, "%s := %s.get", f, c)
+		g.line(ind, "%s.v = %s", c, g.expr(s, U64, 1))
+		g.line(ind, "%s := %s(%s)", n, f, g.expr(s, U64, 1))
+		g.declare(s, Var{Name: n, T: U64})
+	case 41: // generic function, explicit and inferred instantiation
+		n, b := g.fresh("v"), g.fresh("v")
+		g.key("generic.call")
+		g.line(ind, "%s := pick2[uint64](%s, %s, %s)", n, g.expr(s, U64, 1), g.expr(s, U64, 1), g.expr(s, Bool, 1))
+		g.line(ind, "%s := pick2[bool](%s, %s, %s)", b, g.expr(s, Bool, 1), g.expr(s, Bool, 1), g.expr(s, Bool, 1))
+		g.declare(s, Var{Name: n, T: U64})
+		g.declare(s, Var{Name: b, T: Bool})
+	case 42: // package-level variable (read only)
+		n := g.fresh("v")
+		g.key("global.var-read")
+		g.line(ind, "%s := G0 ^ %s", n, g.expr(s, U64, 1))
+		g.declare(s, Var{Name: n, T: U64})
+	case 43: // loops with other post statements / without init
+		t, i := g.fresh("v"), g.fresh("lv")
+		g.key("loop.post-variants")
+		g.line(ind, "var %s uint64 = %s", t, g.expr(s, U64, 1))
+		switch g.pick(3) {
+		case 0:
+			g.line(ind, "for %s := uint64(0); %s < %d; %s += 2 {", i, i, 3+g.pick(6), i)
+			g.line(ind+1, "%s = %s*3 + %s", t, t, i)
+			g.line(ind, "}")
+		case 1:
+			g.line(ind, "var %s uint64 = 1", i)
+			g.line(ind, "for ; %s < %d; %s++ {", i, 2+g.pick(5), i)
+			g.line(ind+1, "%s = %s + %s*%s", t, t, i, i)
+			g.line(ind, "}")
+			g.declare(s, Var{Name: i, T: U64})
+		default:
+			g.line(ind, "for %s := uint64(0); %s < %d; %s++ {", i, i, 3+g.pick(4), i)
+			g.line(ind+1, "if %s == %d {", i, 1+g.pick(2))
+			g.line(ind+2, "continue")
+			g.line(ind+1, "}")
+			g.line(ind+1, "%s = %s*7 + %s", t, t, i)
+			g.line(ind, "}")
+		}
+		g.declare(s, Var{Name: t, T: U64, Assignable: true})
+	case 44: // range with the index only; range over a map (commutative fold)
+		sl, m, t := g.fresh("rs"), g.fresh("rm"), g.fresh("v")
+		i, k, x := g.fresh("lv"), g.fresh("lv"), g.fresh("lv")
+		g.key("loop.range-index-map")
+		g.line(ind, "%s := make([]uint64, %d)", sl, 1+g.pick(4))
+		g.line(ind, "var %s uint64 = 0", t)
+		g.line(ind, "for %s := range %s {", i, sl)
+		g.line(ind+1, "%s = %s + uint64(%s) + 1", t, t, i)
+		g.line(ind, "}")
+		g.line(ind, "%s := make(map[uint64]uint64)", m)
+		g.line(ind, "%s[%s] = %s", m, g.smallKey(), g.expr(s, U64, 1))
+		g.line(ind, "%s[%s] = %s", m, g.smallKey(), g.expr(s, U64, 1))
+		g.line(ind, "for %s, %s := range %s {", k, x, m)
+		g.line(ind+1, "%s = %s + (%s ^ %s)", t, t, k, x)
+		g.line(ind, "}")
+		g.declare(s, Var{Name: t, T: U64, Assignable: true})
+		fs.minLen[sl] = 1
+	case 45: // compound assignment to a field, an element and through a pointer
+		c, sl, p, n := g.fresh("cl"), g.fresh("os"), g.fresh("op"), g.fresh("v")
+		g.key("opassign.places")
+		g.line(ind, "%s := &Cell{v: %s, w: %s}", c, g.expr(s, U64, 1), g.expr(s, U32, 1))
+		g.line(ind, "%s.v %s %s", c, []string{"+=", "-=", "|=", "^="}[g.pick(4)], g.expr(s, U64, 1))
+		g.line(ind, "%s.w %s %s", c, []string{"+=", "&=", "^="}[g.pick(3)], g.expr(s, U32, 1))
+		g.line(ind, "%s := make([]uint64, 3)", sl)
+		g.line(ind, "%s[1] += %s", sl, g.expr(s, U64, 1))
+		g.line(ind, "%s[1] ^= %s", sl, g.expr(s, U64, 1))
+		g.line(ind, "%s := new(uint64)", p)
+		g.line(ind, "*%s += %s", p, g.expr(s, U64, 1))
+		g.line(ind, "*%s -= %s", p, g.expr(s, U64, 1))
+		g.line(ind, "%s := %s.v + uint64(%s.w) + %s[1] + *%s", n, c, c, sl, p)
+		g.declare(s, Var{Name: n, T: U64})
+	case 46: // struct values are copied: by assignment and when passed
+		a, b, n := g.fresh("ca"), g.fresh("cb"), g.fresh("v")
+		g.key("struct.value-copy")
+		g.line(ind, "var %s Cell", a)
+		g.line(ind, "%s.v = %s", a, g.expr(s, U64, 1))
+		g.line(ind, "%s := %s", b, a)
+		g.line(ind, "%s.v = %s", a, g.expr(s, U64, 1))
+		g.line(ind, "%s := cellSum(%s)*3 + cellSum(%s) + %s.v", n, a, b, b)
+		g.declare(s, Var{Name: n, T: U64})
+	case 47: // pointer to pointer, pointer equality
+		x, pp, y, n := g.fresh("px"), g.fresh("pp"), g.fresh("py"), g.fresh("v")
+		g.key("ptr.to-ptr-compare")
+		g.line(ind, "%s := new(uint64)", x)
+		g.line(ind, "%s := new(*uint64)", pp)
+		g.line(ind, "*%s = %s", pp, x)
+		g.line(ind, "**%s = %s", pp, g.expr(s, U64, 1))
+		g.line(ind, "%s := new(uint64)", y)
+		g.line(ind, "var %s uint64 = *%s", n, x)
+		g.line(ind, "if %s == %s {", x, y)
+		g.line(ind+1, "%s = %s + 1", n, n)
+		g.line(ind, "}")
+		g.line(ind, "if *%s == %s {", pp, x)
+		g.line(ind+1, "%s = %s + 10", n, n)
+		g.line(ind, "}")
+		g.declare(s, Var{Name: n, T: U64, Assignable: true})
+	case 48: // appends that share a backing array
+		a, b, c, n := g.fresh("sa"), g.fresh("sb"), g.fresh("sc"), g.fresh("v")
+		g.key("slice.append-alias")
+		g.line(ind, "%s := make([]uint64, 1, 4)", a)
+		g.line(ind, "%s := append(%s, %s)", b, a, g.expr(s, U64, 1))
+		g.line(ind, "%s := append(%s, %s)", c, a, g.expr(s, U64, 1))
+		g.line(ind, "%s := %s[1]*3 + %s[1] + uint64(len(%s)) + uint64(cap(%s))", n, b, c, b, c)
+		g.declare(s, Var{Name: n, T: U64})
 	}
 }
 
